@@ -74,6 +74,10 @@ pub struct Case {
     #[serde(default)]
     pub vel: u8,
     pub ops: Vec<Op>,
+    /// the signer runs with OnchainValidatorFactory (vlsd's default) and the channels' funding
+    /// transactions are confirmed on the tracker's chain
+    #[serde(default)]
+    pub onchain: bool,
 }
 
 const VEL_LIMIT_SAT: [u64; 3] = [60_000, 150_000, 260_000];
@@ -177,7 +181,7 @@ impl Prop for C06 {
     fn strategy(&self, tier: Tier) -> BoxedStrategy<Case> {
         let n = tier.pick(45usize, 120usize);
         let vel = prop_oneof![5 => Just(0u8), 1 => Just(1u8), 2 => Just(2u8), 1 => Just(3u8)];
-        (2u8..4, any::<bool>(), vel, proptest::collection::vec(op_strat(), 1..n)).prop_map(|(nchan, anchors, vel, ops)| Case { nchan, anchors, vel, ops }).boxed()
+        (2u8..4, any::<bool>(), vel, proptest::collection::vec(op_strat(), 1..n), prop::bool::weighted(0.35)).prop_map(|(nchan, anchors, vel, ops, onchain)| Case { nchan, anchors, vel, ops, onchain }).boxed()
     }
 
     fn run(&self, case: &Case, st: &mut CaseStats, ctx: &Ctx) -> Result<(), Violation> {
@@ -189,7 +193,8 @@ impl Prop for C06 {
             };
             st.class("finite_velocity_limit");
         }
-        let mut w = World::new(cfg);
+        let mut w = if case.onchain { World::new_onchain(cfg) } else { World::new(cfg) };
+        st.class(if case.onchain { "onchain-factory" } else { "simple-factory" });
         let max_fee_msat: u128 = w.cfg.policy.max_routing_fee_msat as u128;
         let nchan = case.nchan as usize;
         let mut led: Vec<ChanLedger> = vec![];
@@ -198,7 +203,11 @@ impl Prop for C06 {
             spec.anchors = case.anchors;
             spec.value_sat = VALUE;
             spec.push_msat = VALUE / 2 * 1000;
-            w.open(&spec);
+            if case.onchain {
+                crate::chainpool::open_confirmed(&mut w, &spec);
+            } else {
+                w.open(&spec);
+            }
             led.push(ChanLedger::default());
         }
         let secp = w.secp.clone();
